@@ -320,3 +320,4 @@ h!(vec_split_independent_up1_b1, split_independent::<S<1, true>>(1));
 h!(vec_shrink_min_align_down8, shrink_min_align::<S<8, false>>());
 h!(vec_shrink_min_align_up4, shrink_min_align::<S<4, true>>());
 h!(vec_shrink_min_align_down1, shrink_min_align::<S<1, false>>());
+
